@@ -108,6 +108,25 @@ def run_part(prop, seed, budget):
                 r = _out(lambda: deserialize(B, d, **kw))
                 got = sorted(e["loc"] for e in r[1]) if r[0] == "invalid" else r
                 if got != sorted(want): _fail(failures, "validator-naming-its-field-with-get_alias", "crash:" + r[1].split(":")[0] if r[0] == "crash" else "validator-error-not-located-at-the-alias", datum=d, path=path, got=got, expected=want)
+    if prop in ("C01", "C10"):
+        # validators given for a position (`validators=` argument, `validators(...)` in field / Annotated metadata) reject on object types as they do on primitives
+        from apischema import ValidationError as _VE
+        vsrc = ["from dataclasses import dataclass, field", "from typing import *", "from apischema import ValidationError, validator", "from apischema.metadata import validators", "",
+                "def neg(o):", "    if o.a < 0: raise ValidationError('negative a')", "",
+                "@dataclass", f"class In{i}:", "    a: int = 0", "", f"class InNT{i}(NamedTuple):", "    a: int = 0", "", f"class InTD{i}(TypedDict):", "    a: int", "",
+                "@dataclass", f"class Out{i}:", f"    inner: In{i} = field(default_factory=In{i}, metadata=validators(neg))", f"    m: Annotated[In{i}, validators(neg)] = field(default_factory=In{i})", "    n: int = 0", ""]
+        vg = vars(build_module(vsrc, f"corners7val_{seed}"))
+        def never(_): raise _VE("never valid")
+        for tp_src, d in (("int", 1), (f"In{i}", {"a": 1}), (f"InNT{i}", {"a": 1}), (f"InTD{i}", {"a": 1}), (f"List[In{i}]", [{"a": 1}]), (f"Optional[In{i}]", {"a": 1})):
+            n += 1; distinct.add(case_hash("c7-extval", tp_src)); hist["validators-given-for-a-position"] += 1
+            r = _out(lambda: deserialize(eval(tp_src, vg), d, validators=[never]))
+            if r != ("invalid", [{"loc": [], "err": "never valid"}]): _fail(failures, "position-validators", "validator-given-to-deserialize-not-run", type=tp_src, datum=d, got=r)
+        Out = vg[f"Out{i}"]
+        for d, want in (({"inner": {"a": -1}, "m": {"a": -2}}, ("invalid", [["inner"], ["m"]])), ({"inner": {"a": 1}, "m": {"a": 2}}, ("ok", None)), ({"inner": {"a": -1}, "n": "x"}, ("invalid", [["inner"], ["n"]]))):
+            n += 1; distinct.add(case_hash("c7-fieldval", repr(d))); hist["validators-given-for-a-position"] += 1
+            r = _out(lambda: deserialize(Out, d))
+            got = (r[0], sorted(e["loc"] for e in r[1]) if r[0] == "invalid" else None)
+            if got != want: _fail(failures, "position-validators", "field-level-validator-on-an-object-typed-field-not-run", datum=d, got=r, expected=list(want))
     if prop in ("C03", "C17"):
         # examples (lists, possibly of dicts) in a schema used inside Annotated: the annotated type is a key of the caches
         xsrc = ["from dataclasses import dataclass, field", "from typing import *", "from apischema import schema", "from apischema.metadata import properties", "", "@dataclass", f"class Xm{i}:",
